@@ -15,15 +15,20 @@ FailIdx(r) == {i \in 1..Len(AllJobs(r)) : AllJobs(r)[i] \in Fset(r)}
 FirstFail(r) == CHOOSE i \in FailIdx(r) : \A j \in FailIdx(r) : i <= j
 Tok(j) == "j." \o ToString(j[1]) \o "." \o ToString(j[2])
 Toks(js) == [i \in 1..Len(js) |-> Tok(js[i])]
-B(r) == IF r.nb = "none" THEN <<>> ELSE <<"b">>
-A(r) == IF r.na = "none" THEN <<>> ELSE <<"a">>
+HSeq(h) == CASE h = "none" -> <<>> [] h = "ok" -> <<"ok">> [] h = "fail" -> <<"fail">>
+             [] h = "okok" -> <<"ok", "ok">> [] h = "okfail" -> <<"ok", "fail">> [] OTHER -> <<"fail", "ok">>
+HasFail(h) == \E i \in DOMAIN HSeq(h) : HSeq(h)[i] = "fail"
+FirstFailIdx(h) == CHOOSE i \in DOMAIN HSeq(h) : HSeq(h)[i] = "fail" /\ \A j \in 1..(i - 1) : HSeq(h)[j] = "ok"
+HToks(tag, n) == [i \in 1..n |-> tag \o "." \o ToString(i)]
+B(r) == HToks("b", Len(HSeq(r.nb)))
+A(r) == HToks("a", Len(HSeq(r.na)))
 Stops(r) == ~r.allow /\ FailIdx(r) # {}
 ExpTrace(r) == IF r.cond = "false" THEN <<>>
-               ELSE IF r.nb = "fail" THEN <<"b">>
+               ELSE IF HasFail(r.nb) THEN HToks("b", FirstFailIdx(r.nb))
                ELSE IF Stops(r) THEN B(r) \o Toks(SubSeq(AllJobs(r), 1, FirstFail(r)))
                ELSE B(r) \o Toks(AllJobs(r)) \o A(r)
-ExpErr(r) == r.cond # "false" /\ (r.nb = "fail" \/ Stops(r))
-ExpErrored(r) == r.cond # "false" /\ r.nb # "fail" /\ Stops(r)
+ExpErr(r) == r.cond # "false" /\ (HasFail(r.nb) \/ Stops(r))
+ExpErrored(r) == r.cond # "false" /\ ~HasFail(r.nb) /\ Stops(r)
 ExpSkipped(r) == r.cond = "false"
 ExpExit(r) == IF ExpSkipped(r) THEN 0 ELSE IF ExpErrored(r) THEN r.K + 1 ELSE 1   \* exitCode + 1
 RowOK(r) == /\ r.trace = ExpTrace(r)
